@@ -234,8 +234,31 @@ TPbBlock == /\ Tr[l].e = "PbBlock"
 \* events of the other families (system-level traces): stuttering steps for this specification
 Own == {"Reset", "Garbage", "Hash", "HInit", "HReinit", "HUpdate", "HFinal", "HFree", "Hmac", "HmInit", "HmReinit", "HmUpdate",
         "HmFinal", "HmFree", "Hkdf", "HkdfHead", "PbHead", "HkdfBlock", "HkExtract", "HkExpand", "HkExpandCtl", "HkFree",
-        "Pbkdf2", "PbBlock"}
+        "Pbkdf2", "PbBlock", "PbLink", "PbXor"}
 TForeign == Tr[l].e \notin Own \cup {"Fault", "San", "Hang", "Garbled"} /\ UNCHANGED <<hs, ms, ks, D, kc>>
+
+(***************************************************************************)
+(* PBKDF2 with large iteration counts, validated compositionally: the      *)
+(* harness records (by link-time interposition) every PRF output U_j the   *)
+(* implementation computed inside one tinyjambu_pbkdf2 call.  PbLink       *)
+(* checks one link of the chain, U_j = HMAC(P, U_(j-1)) resp.              *)
+(* U_1 = HMAC(P, S || INT32BE(i)); PbXor checks T_i = U_1 xor ... xor U_c  *)
+(* against the bytes the call returned.  All links and all XORs of a call  *)
+(* together are exactly RFC 8018's F; the links are independent, so they   *)
+(* spread over the shards.                                                 *)
+(***************************************************************************)
+TPbLink == /\ Tr[l].e = "PbLink"
+           /\ LET e == Tr[l]
+                  x == HmacWith(KeyStates(e.pw), IF e.j = 1 THEN e.salt \o Int32BE(e.i) ELSE e.prev)
+              IN  /\ Judge(e.cur = x, l, e, x)
+                  /\ Remember(e.pw)
+           /\ UNCHANGED <<hs, ms, ks, D>>
+
+TPbXor == /\ Tr[l].e = "PbXor"
+          /\ LET e == Tr[l]
+                 t == FoldLeft(LAMBDA a, u : XorBytes(a, u), Zeros(32), e.us)
+             IN  Judge(e.cur = SubSeq(t, 1, Len(e.cur)) /\ Len(e.us) = (IF e.count = 0 THEN 1 ELSE e.count), l, e, t)
+          /\ UNCHANGED <<hs, ms, ks, D, kc>>
 
 Init == /\ l = 1 /\ InitRegs
         /\ hs = [o \in Objs |-> Garbage] /\ ms = [o \in Objs |-> Garbage]
@@ -245,7 +268,7 @@ Next == /\ l <= Len(Tr)
         /\ l' = l + 1
         /\ \/ TReset \/ TGarbage \/ THash \/ THInit \/ THUpdate \/ THFinal \/ THFree
            \/ THmac \/ THmInit \/ THmUpdate \/ THmFinal \/ THmFree
-           \/ TForeign \/ THkdf \/ THkdfHead \/ TPbHead \/ THkdfBlock \/ THkExtract \/ THkExpand \/ THkExpandCtl \/ THkFree \/ TPbkdf2 \/ TPbBlock
+           \/ TForeign \/ TPbLink \/ TPbXor \/ THkdf \/ THkdfHead \/ TPbHead \/ THkdfBlock \/ THkExtract \/ THkExpand \/ THkExpandCtl \/ THkFree \/ TPbkdf2 \/ TPbBlock
 
 Spec == Init /\ [][Next]_vars
 TraceAccepted == Accepted(Len(Tr))
